@@ -1,16 +1,17 @@
 // Harness for C19 (executors): the real taskpool.TaskPool / IOTaskPool and the real timer.Timer.Async under the real
 // Go scheduler (no cooperative scheduling here: channels are not under it), with start / end events.
 //
-//  correspondence (quiescent points only): while every task blocks on a gate the pool's state after each Go call is
-//          determined; the same calls are fed to the Coq LTS (TaskPool.v) and the counter `concurrent`, the queue length
-//          and the number of started tasks are compared after every call, after the gate opens (everything finished), after
-//          an overload, and after Stop. The largest number of tasks seen running at once is compared with the model's bound
-//          max(1, maxConcurrent).
-//  oracle (implementation alone): the number of tasks running at once never exceeds the configured bound; every task whose
-//          Go call returned before Stop runs exactly once (after Stop too), no task runs twice, Go never hangs; a panicking
-//          task is contained; after an overload the pool is idle again with the counter at 0 and a barrier of as many
-//          mutually waiting tasks as a fresh pool admits completes; Async functions run exactly once, one at a time, in the
-//          order of each producer, also behind a backlog of more than 1024 entries and after it.
+//	correspondence (quiescent points only): while every task blocks on a gate the pool's state after each Go call is
+//	        determined; the same calls are fed to the Coq LTS (TaskPool.v) and the counter `concurrent`, the queue length
+//	        and the number of started tasks are compared after every call, after the gate opens (everything finished), after
+//	        an overload, and after Stop. The largest number of tasks seen running at once is compared with the model's bound
+//	        max(1, maxConcurrent).
+//	oracle (implementation alone): the number of tasks running at once never exceeds the configured bound; every task whose
+//	        Go call returned before Stop runs exactly once (after Stop too), no task runs twice, Go never hangs; a panicking
+//	        task is contained; after an overload the pool is idle again with the counter at 0 and a barrier of as many
+//	        mutually waiting tasks as a fresh pool admits completes; Async functions run exactly once, one at a time, in the
+//	        order of each producer, also behind a backlog of more than 1024 entries and after it.
+//
 // All waits are one-sided with generous deadlines (a slow machine only makes the run longer).
 package main
 
@@ -532,7 +533,9 @@ func runScenario(rep *hx.Report, m *hx.Model, sc scenario) {
 		oracle("task-lost-at-stop", fmt.Sprintf("%d of %d tasks whose Go call returned before Stop never ran", missing, len(pre)))
 		return
 	}
-	waitFor(func() bool { return atomic.LoadInt64(&p.cur) == 0 && atomic.LoadInt64(&p.started) == atomic.LoadInt64(&p.ended) })
+	waitFor(func() bool {
+		return atomic.LoadInt64(&p.cur) == 0 && atomic.LoadInt64(&p.started) == atomic.LoadInt64(&p.ended)
+	})
 	time.Sleep(2 * time.Millisecond)
 	for _, id := range append(append([]int{}, pre...), racing...) {
 		if n := p.runsOf(id); n > 1 {
